@@ -40,3 +40,92 @@ package ovmf
 //@ func (*SevData).ExtractFromFirmware
 //@   requires d != nil && len(data) < 2147483648
 //@   sweep[C08]
+
+// ---- TDX metadata (C08 totality / resources; C05 structure) ----
+// secOK(s, n): what validation establishes for one TDVF metadata section of an n-byte image: a known type, and for
+// firmware-volume sections a non-empty data range inside the image whose memory size equals its data size.
+//@ func extractTDXMetadata
+//@   requires len(firmware) < 2147483648
+//@   assigns nothing
+//@   sweep[C08]
+//@   alloc 80 * len(firmware) + 8192
+//@   ghostparam a Int
+//@   ensures[C08] err == nil ==> result0 != nil && fresh(result0) && 32 * len(result0.Sections) <= len(firmware) && (ref(result0.Sections) == 0 || fresh(result0.Sections))
+//@   ensures[C08] err == nil && 0 <= a && a < len(result0.Sections) ==> result0.Sections[a] != nil && fresh(result0.Sections[a]) && secOK(result0.Sections[a], len(firmware))
+
+//@ func validateTDXMetadataSections
+//@   requires rawMetadata != nil && rawMetadata.Header != nil
+//@   requires forall(k, 0 <= k && k < len(rawMetadata.Sections) ==> rawMetadata.Sections[k] != nil)
+//@   assigns nothing
+//@   sweep[C08]
+//@   ghostparam a Int
+//@   ensures[C08] err == nil && 0 <= a && a < len(rawMetadata.Sections) ==> secOK(rawMetadata.Sections[a], firmwareLen)
+//@   loop 1 assigns fvSize
+//@   loop 1 invariant 0 <= a && a <= rangeindex ==> secOK(rawMetadata.Sections[a], firmwareLen)
+
+//@ func (*tdxFwParser).validateMetadataSectionGpr
+//@   requires p != nil
+//@   requires forall(k, 0 <= k && k < len(p.Regions) ==> p.Regions[k] != nil)
+//@   assigns nothing
+//@   sweep[C08]
+
+//@ func sortedGPRsCopy
+//@   requires len(a) < 17592186044416
+//@   assigns nothing
+//@   sweep[C08]
+//@   alloc 16 * len(a) + 64
+//@   ensures[C08] len(result) == len(a) && fresh(result)
+
+// unacceptedMemRanges: RAM minus the private sections. Checked here: no panic, allocation in proportion to its
+// inputs, and termination of both loops (the inner loop either advances privIndex or, after shrinking the bank to
+// start at the end of the private region, advances it in the next iteration).
+//@ func unacceptedMemRanges
+//@   requires len(privateResources) < 17592186044416 && len(ramResources) < 17592186044416
+//@   assigns nothing
+//@   sweep[C08]
+//@   loop 1 invariant fresh(privateResources) && fresh(ramResources)
+//@   loop 1 invariant 0 <= privIndex && privIndex <= len(privateResources) && (ref(unacceptedResources) == 0 || (fresh(unacceptedResources) && ref(unacceptedResources) != ref(privateResources) && ref(unacceptedResources) != ref(ramResources)))
+//@   loop 2 invariant 0 <= privIndex && privIndex <= len(privateResources) && (ref(unacceptedResources) == 0 || (fresh(unacceptedResources) && ref(unacceptedResources) != ref(privateResources) && ref(unacceptedResources) != ref(ramResources))) && ramResource.Length != 0
+//@   loop 2 decreases[C08] 2 * (len(privateResources) - privIndex) + ite(privIndex < len(privateResources) && privateResources[privIndex].Length != 0 && (privateResources[privIndex].Start + privateResources[privIndex].Length) % 18446744073709551616 > ramResource.Start, 1, 0)
+
+//@ func appendTDHobResource
+//@   assigns nothing
+//@   modifies wrLen, wrLog, rdLeft
+//@   sweep[C08]
+//@   ensures forall(r, Int, r != ref(buf) ==> wrLen[r] == old(wrLen)[r] && wrLog[r] == old(wrLog)[r] && rdLeft[r] == old(rdLeft)[r])
+
+// getTDHOBList serialises the hand-off block into a buffer of the TD HOB section's size.
+//@ func (*tdxFwParser).getTDHOBList
+//@   requires p != nil && p.TDHOBregion != nil
+//@   assigns p.TDHOBregion.HostBuffer
+//@   sweep[C08]
+//@   alloc 512 * (len(privateResources) + len(unacceptedResources)) + 4096
+//@   loop 1 invariant forall(r, Int, !fresh(r) ==> wrLen[r] == old(wrLen)[r] && wrLog[r] == old(wrLog)[r] && rdLeft[r] == old(rdLeft)[r]) && tdHOBbuf != nil && fresh(tdHOBbuf) && alloc <= 1024 + 300 * (rangeindex + 1) + ite(gpr.Length < 9223372036854775808, gpr.Length, 0)
+//@   loop 2 invariant forall(r, Int, !fresh(r) ==> wrLen[r] == old(wrLen)[r] && wrLog[r] == old(wrLog)[r] && rdLeft[r] == old(rdLeft)[r]) && tdHOBbuf != nil && fresh(tdHOBbuf) && alloc <= 1024 + 300 * len(privateResources) + 300 * (rangeindex + 1) + ite(gpr.Length < 9223372036854775808, gpr.Length, 0)
+
+// (No allocation budget is stated for parse: the zero-filled buffers of TD HOB / temp-memory sections are sized by
+// the metadata alone, which is the recorded C08 finding at the make() below; see /verif/known_findings.txt.)
+//@ func (*tdxFwParser).parse
+//@   assigns p.Regions, p.TDHOBregion
+//@   ensures[C08] forall(k, 0 <= k && k < len(result0) ==> result0[k] != nil)
+//@   requires p != nil && len(firmware) < 2147483648 && same(p.Regions, nil) && len(guestRAMbanks) < 1048576
+//@   sweep[C08]
+//@   loop 1 invariant 0 <= rangeindex + 1 && len(p.Regions) == rangeindex + 1 && len(privateResources) == rangeindex + 1 && (ref(p.Regions) == 0 || fresh(p.Regions)) && (ref(privateResources) == 0 || fresh(privateResources))
+//@   loop 1 invariant forall(k, 0 <= k && k < len(p.Regions) ==> p.Regions[k] != nil && fresh(p.Regions[k]))
+//@   loop 1 invariant tdHOBregionIndex != nil ==> 0 <= tdHOBregionIndex.Value && tdHOBregionIndex.Value <= rangeindex
+
+//@ func ExtractMaterialGuestPhysicalRegionsNoUnacceptedMemory
+//@   assigns nothing
+//@   ensures[C08] err == nil ==> forall(k, 0 <= k && k < len(result0) ==> result0[k] != nil)
+//@   requires len(firmware) < 2147483648 && len(guestRAMbanks) < 1048576
+//@   sweep[C08]
+//@ func ExtractMaterialGuestPhysicalRegionsTDHOBBug
+//@   assigns nothing
+//@   ensures[C08] err == nil ==> forall(k, 0 <= k && k < len(result0) ==> result0[k] != nil)
+//@   requires len(firmware) < 2147483648 && len(guestRAMbanks) < 1048576
+//@   sweep[C08]
+//@ func ExtractMaterialGuestPhysicalRegions
+//@   assigns nothing
+//@   ensures[C08] err == nil ==> forall(k, 0 <= k && k < len(result0) ==> result0[k] != nil)
+//@   requires len(firmware) < 2147483648
+//@   sweep[C08]
